@@ -255,11 +255,13 @@ func (k Keeper) StartDistributionProcess(ctx sdk.Context, states *[]types.State,
 	localRemains = states
 	defaultShare := coinsToDistributeDec
 	for _, share := range subDistributor.Destinations.Shares {
-		if share.Destination.Type == types.Main {
-			continue
-		}
 		calculatedShare := calculatePercentage(share.Share, coinsToDistributeDec)
 		defaultShare = defaultShare.Sub(calculatedShare)
+		if share.Destination.Type == types.Main {
+			// the share stays in the main account (no state), where the next subdistributor with the
+			// main source picks it up; it must still be deducted from the primary share
+			continue
+		}
 		if !calculatedShare.IsZero() {
 			findFunc := func() int {
 				return findAccountState(localRemains, &share.Destination)
